@@ -28,6 +28,9 @@ struct track
     double tcp_connect_timeout;
     struct tcp_opts tcp_opts;
 
+    /* a copy, since the caller's object need not outlive
+       tconnect_connect() (later attempts bind to it as well) */
+    struct xcm_addr_ip local_ip_data;
     const struct xcm_addr_ip *local_ip;
     uint16_t local_port;
     int64_t scope;
@@ -87,13 +90,17 @@ static struct track *track_create(int fd4, int fd6,
 	.num_remote_ips = num_remote_ips,
 	.remote_port = remote_port,
 	.scope = scope,
-	.local_ip = local_ip,
 	.local_port = local_port,
 	.timer_mgr = timer_mgr,
 	.xpoll = xpoll,
 	.ip_idx = -1,
 	.log_ref = log_ref
     };
+
+    if (local_ip != NULL) {
+	track->local_ip_data = *local_ip;
+	track->local_ip = &track->local_ip_data;
+    }
 
     if (initial_delay > 0) {
 	track->timer_id = timer_mgr_schedule(timer_mgr, initial_delay);
